@@ -19,6 +19,9 @@ from array import array
 from collections import Counter
 
 VERIF = os.path.dirname(os.path.dirname(os.path.abspath(__file__)))
+# evidence/ and replays/ are written under /verif unless VERIF_OUT names another directory (used when a check is run against a
+# scratch copy of the repository carrying a seeded change: several such runs in parallel, committed evidence left alone)
+OUT = os.environ.get("VERIF_OUT") or VERIF
 
 
 def load_findings():
@@ -77,7 +80,7 @@ def main(argv=None):
         return r.returncode
 
     import glob
-    for old in glob.glob(os.path.join(VERIF, "replays", f"{prop}-*.json")):
+    for old in glob.glob(os.path.join(OUT, "replays", f"{prop}-*.json")):
         os.remove(old)
     nshards = a.shards or int(os.environ.get("VERIF_SHARDS") or 0) or mod.SHARDS[a.tier]
     cap = mod.TIME_CAP[a.tier]
@@ -155,7 +158,7 @@ def main(argv=None):
     replay_paths = []
     if new:
         rc = 1
-        rdir = os.path.join(VERIF, "replays")
+        rdir = os.path.join(OUT, "replays")
         os.makedirs(rdir, exist_ok=True)
         seen_keys = set()
         k = 0
@@ -168,7 +171,7 @@ def main(argv=None):
             if k > int(os.environ.get('VERIF_MAX_REPLAYS') or 12):
                 break
             path = os.path.join("replays", f"{prop}-{k}.json")
-            with open(os.path.join(VERIF, path), "w") as f:
+            with open(os.path.join(OUT, path), "w") as f:
                 json.dump({"property": prop, "seed": seed, "tier": a.tier, "features": v["features"], "witness": v["witness"], "count_in_run": new_groups.get(key, 1)}, f, indent=1, default=str)
             replay_paths.append(path)
             print(f"VIOLATION property={prop} replay={path}")
@@ -214,8 +217,8 @@ def main(argv=None):
         "violations": len(new_groups),
         "verdict": {0: "held on what was observed", 1: "violated", 2: "inconclusive", 3: "harness error"}[rc],
     }
-    os.makedirs(os.path.join(VERIF, "evidence"), exist_ok=True)
-    with open(os.path.join(VERIF, "evidence", f"{prop}.json"), "w") as f:
+    os.makedirs(os.path.join(OUT, "evidence"), exist_ok=True)
+    with open(os.path.join(OUT, "evidence", f"{prop}.json"), "w") as f:
         json.dump(ev, f, indent=1, default=str)
     print(f"{prop} tier={a.tier} seed={seed}: {ev['verdict']}; evaluations={evaluations} distinct_nontrivial={len(distinct)} known={len(known_seen)} new_groups={len(new_groups)} wall={wall}s")
     if not a.keep:
